@@ -250,6 +250,13 @@ Definition mem_nat (i : nat) (l : list nat) := existsb (Nat.eqb i) l.
 
 Definition well_bracketed (body : list fop) : bool := framed body.
 
+Definition accepts (op : fop) (m : mode) : bool :=
+  match m with
+  | MSemanticAfter => is_block_style op || is_branching op
+  | MBlockEntry | MBlockExit | MBlockAlt => is_block_style op
+  | _ => true
+  end.
+
 Definition domain21 (c : lcase) : bool :=
   let rem := removed (c_plan c) (c_body c) in
   plan_in_range (length (c_body c)) (c_plan c) && well_bracketed (c_body c)
@@ -259,7 +266,10 @@ Definition domain21 (c : lcase) : bool :=
                 match m with
                 | MBlockAlt => is_block_style (nth i (c_body c) FEnd)
                 | MBefore | MAfter | MAlternate => negb (mem_nat i rem)
-                | _ => false
+                (* a special-mode probe on a construct strictly inside a replaced region disappears with it
+                   (C18/C19/C20: it must fire "at no other time"); outside, other special modes are not C21's business *)
+                | _ => mem_nat i rem && negb (existsb (fun e' => Nat.eqb (fst (fst e')) i && mode_eqb (snd (fst e')) MBlockAlt) (c_plan c))
+                       && accepts (nth i (c_body c) FEnd) m
                 end) (c_plan c).
 
 Definition holds21 (c : lcase) : bool :=
@@ -283,13 +293,6 @@ Definition markers (code : list fop) : list Z :=
   flat_map (fun o => match o with FConst z => if (1000 <=? z)%Z then [z] else [] | _ => [] end) code.
 Definition occurs (z : Z) (b : list fop) : bool :=
   existsb (fun o => match o with FConst z' => Z.eqb z z' | _ => false end) b.
-
-Definition accepts (op : fop) (m : mode) : bool :=
-  match m with
-  | MSemanticAfter => is_block_style op || is_branching op
-  | MBlockEntry | MBlockExit | MBlockAlt => is_block_style op
-  | _ => true
-  end.
 
 (* depth of every position (number of enclosing constructs of the function body) *)
 Fixpoint depths_from (d : nat) (body : list fop) : list nat :=
@@ -367,9 +370,17 @@ Definition verdict21 (c : lcase) : bool * bool * bool * list N :=
 Definition verdict22 (c : lcase) : bool * bool * bool * list N :=
   (agree c, domain22 c, holds22 c,
    (if known_D16 c then [16] else []) ++ (if known_D19 c then [19] else []) ++ (if known_D20 c then [20] else []))%N.
-(* C05 on this engine: the second encoding equals the first *)
+(* C05 on this engine: the second encoding equals the first.
+   D31: a special-mode injection that sits inside a region the same plan removes (or on the removed opener)
+   is never resolved; it is still attached to the IR after the first encode and the second encode treats it
+   differently ("BUG: ... should be resolved already" is logged) *)
+Definition known_D31 (c : lcase) : bool :=
+  let rem := removed (c_plan c) (c_body c) in
+  existsb (fun e => let '(i, m, _) := e in
+             special_mode m && (if mode_eqb m MBlockAlt then negb (top_level c i) else mem_nat i rem)) (c_plan c).
 Definition verdict05 (c : lcase) : bool * bool * bool * list N :=
-  (agree c, match c_obs c with Some _ => true | None => false end, c_obs2_same c, []).
+  (agree c, match c_obs c with Some _ => true | None => false end, c_obs2_same c,
+   (if known_D31 c then [31] else []) ++ (if known_D19 c then [19] else []) ++ (if known_D20 c then [20] else []))%N.
 
 Definition report_C15 := run_report verdict15.
 Definition report_C21 := run_report verdict21.
